@@ -257,6 +257,7 @@ type fheap struct {
 	flags                              int
 	ioFilterLen                        int
 	blockLenBytes                      int
+	dirHdr                             int // size of a direct block's header
 }
 
 func (f *File) fractalHeap(addr uint64, owner string, record bool) fheap {
@@ -291,6 +292,10 @@ func (f *File) fractalHeap(addr uint64, owner string, record bool) fheap {
 		end += f.LenSz + 4 + h.ioFilterLen
 	}
 	h.heapOffBytes = (h.maxHeapBits + 7) / 8
+	h.dirHdr = 5 + f.OffSz + h.heapOffBytes
+	if h.flags&0x02 != 0 {
+		h.dirHdr += 4
+	}
 	r := map[string]bool{"FRHP.sig": true, "FRHP.version0": f.B[a+4] == 0}
 	if f.in(a, end+4-a) {
 		r["FRHP.cksum.lookup3"] = uint32(f.u(end, 4)) == lookup3.HashLittle(f.B[a:end], 0)
@@ -426,6 +431,52 @@ func (h fheap) managedID(id []byte) (off uint64, n int, ok bool) {
 		n |= int(id[p+i]) << (8 * uint(i))
 	}
 	return off, n, true
+}
+
+// plausibleLink: a version 1 link message with no reserved flag bits, whose name is printable and whose
+// fields end exactly at the end of the data.
+func plausibleLink(d []byte, offSz int) bool {
+	if len(d) < 4 || d[0] != 1 || d[1]&0xe0 != 0 {
+		return false
+	}
+	fl := int(d[1])
+	p := 2
+	typ := 0
+	if fl&0x08 != 0 {
+		typ = int(d[p])
+		p++
+	}
+	if fl&0x04 != 0 {
+		p += 8
+	}
+	if fl&0x10 != 0 {
+		p++
+	}
+	lw := 1 << uint(fl&3)
+	if p+lw > len(d) {
+		return false
+	}
+	nl := 0
+	for i := 0; i < lw && i < 4; i++ {
+		nl |= int(d[p+i]) << (8 * uint(i))
+	}
+	p += lw
+	if nl <= 0 || p+nl > len(d) {
+		return false
+	}
+	for _, c := range d[p : p+nl] {
+		if c < 0x20 {
+			return false
+		}
+	}
+	p += nl
+	switch typ {
+	case 0:
+		return p+offSz == len(d)
+	case 1:
+		return p+2 <= len(d) && p+2+(int(d[p])|int(d[p+1])<<8) == len(d)
+	}
+	return p <= len(d)
 }
 
 // tinyID returns the object stored inside a "tiny" heap ID (type 2, normal form: length-1 in the low 4 bits).
@@ -576,9 +627,34 @@ func (f *File) denseLinks(o *Obj, d []byte, depth int, record bool) {
 	}
 	prev := uint32(0)
 	sorted := true
+	idl := h.idLen
+	if len(recs) > 0 && len(recs[0]) < 4+h.idLen {
+		idl = len(recs[0]) - 4
+	}
+	// In the format a managed object can never start inside a block header (heap offsets count it).  An ID that
+	// points there shows the convention of the library under test: offsets counted from the end of the header.
+	alt := false
+	for _, rec := range recs {
+		if len(rec) >= 4+idl && idl > 0 {
+			if off, _, ok := h.managedID(rec[4 : 4+idl]); ok && int(off) < h.dirHdr {
+				alt = true
+			}
+		}
+	}
+	if alt && record {
+		f.ext("fheap-object", 0, 0, o.Path, map[string]bool{"FHDB.object.offset.counts.header": false})
+	}
 	for i, rec := range recs {
-		if len(rec) < 4+h.idLen {
+		if len(rec) < 5 {
 			continue
+		}
+		if len(rec) < 4+h.idLen {
+			// the record is too short for the ID length the heap announces (type 5 records carry 7-byte IDs):
+			// flagged, and the bytes that are there are used
+			idl = len(rec) - 4
+			if i == 0 && record {
+				f.ext("btree2-record", 0, 0, o.Path, map[string]bool{"BT2.linkrecord.heapid.length": false})
+			}
 		}
 		hash := uint32(rec[0]) | uint32(rec[1])<<8 | uint32(rec[2])<<16 | uint32(rec[3])<<24
 		if i > 0 && hash < prev {
@@ -586,15 +662,15 @@ func (f *File) denseLinks(o *Obj, d []byte, depth int, record bool) {
 		}
 		prev = hash
 		var data []byte
-		if td, ok := tinyID(rec[4 : 4+h.idLen]); ok {
+		if td, ok := tinyID(rec[4 : 4+idl]); ok {
 			data = td
 		} else {
-			off, n, ok := h.managedID(rec[4 : 4+h.idLen])
+			off, n, ok := h.managedID(rec[4 : 4+idl])
 			if !ok {
 				f.unsup("%s: link heap ID of type %d", o.Path, rec[4]>>4&3)
 				continue
 			}
-			data, ok = get(off, n, false)
+			data, ok = get(off, n, alt)
 			if !ok {
 				f.errf("%s: link heap object at heap offset %d (%d bytes) not in any block", o.Path, off, n)
 				continue
